@@ -2,7 +2,7 @@
    Property theorems only; proofs live in Proofs/C03Proof.v, Layout/SpecTheory.v. *)
 From Coq Require Import List NArith String Bool.
 From Coq.Strings Require Import Byte.
-From Peppi Require Import Base.Bytes Layout.Syntax Gen.Funs Layout.Sem Layout.SpecTheory Layout.Spec Gen.Tables Proofs.C03Proof.
+From Peppi Require Import Base.Bytes Layout.Syntax Gen.Funs Layout.Sem Layout.SpecTheory Layout.Spec Gen.Tables Layout.Rows Proofs.C03Proof.
 Import ListNotations.
 
 (* For every frame-level event E, every version v, every payload that the generated reader (as regenerated
